@@ -2,3 +2,6 @@ import PdbModel.Basic
 import PdbModel.Hier
 import PdbModel.Level
 import PdbModel.Props.C07
+import PdbModel.Search
+import PdbModel.Lemmas.Search
+import PdbModel.Props.C12
